@@ -371,6 +371,18 @@ fn experiment(h: &mut Hist, ctx: &mut Ctx, class: Bad) {
         prefix.push((b, pb.hash));
         elements.push(bytes);
     }
+    // suffix: valid blocks that must be dropped together with the bad one. They are generated
+    // BEFORE the bad element: generating a block can move the harness clock forward, and a
+    // far-future element must be built against the clock that is in force when it is delivered.
+    let next = garbage_headers(h);
+    let mut suffix_hashes = vec![];
+    let mut suffix_elems: Vec<Vec<u8>> = vec![];
+    for _ in 0..n_after {
+        let parent = h.pick_parent();
+        let b = h.gen_block(&parent);
+        suffix_hashes.push(gen::hash_of(&b));
+        suffix_elems.push(gen::block_bytes(&b));
+    }
     let Some(bad) = bad_element(h, class) else {
         // the prefix is already in the model: deliver it alone so that both stay in step
         world::set_replies(vec![world::reply_complete(elements.clone(), vec![])]);
@@ -383,15 +395,7 @@ fn experiment(h: &mut Hist, ctx: &mut Ctx, class: Bad) {
     };
     let bad_hash = parse::parse_header(&bad).map(|x| x.0);
     elements.push(bad.clone());
-    // suffix: valid blocks that must be dropped together with the bad one
-    let mut suffix_hashes = vec![];
-    for _ in 0..n_after {
-        let parent = h.pick_parent();
-        let b = h.gen_block(&parent);
-        suffix_hashes.push(gen::hash_of(&b));
-        elements.push(gen::block_bytes(&b));
-    }
-    let next = garbage_headers(h);
+    elements.extend(suffix_elems);
     let (_r0, d0, i0) = world::error_counters();
     let position = n_before;
     ctx.cov.count(&format!("c10_class_{:?}", class));
